@@ -24,7 +24,9 @@ class Ctx:
     def __init__(self, pid, tier, seed):
         self.pid = pid
         self.tier = tier
-        self.seed = seed
+        # VERIF_SEED may be any integer: it is folded into a small range (recorders multiply it by 1000, TLC integers are 32-bit
+        # and the generators multiply their Seed constant); 1, 2, 3, ... are kept as they are
+        self.seed = abs(int(seed)) % 9973
         self.t0 = time.time()
         self.work = os.path.join(VERIF, "work", pid)
         shutil.rmtree(self.work, ignore_errors=True)
